@@ -480,11 +480,16 @@ func (r *c16MRun) add(f c16Frame) {
 			n, _ := r.unretired()
 			r.outcome = "limit-error"
 			if n <= r.adv {
-				// advertised > MaxActiveConnectionIDs: the constant limit of the manager explains the error
-				// whatever else happened; otherwise only a polluted queue can (see suffix).
-				cls := "advertised<=4" + r.anySuffix()
+				// Input class: a queue polluted by re-queued duplicates (see suffix) explains the error if
+				// the phantom entries make up the difference; otherwise the enforced limit itself is
+				// smaller than the advertised one.
+				phantoms := len(r.dupProbed) + len(r.dupActiveLow)
+				cls := "advertised<=4"
 				if r.adv > protocol.MaxActiveConnectionIDs {
 					cls = fmt.Sprintf("advertised=%d", r.adv)
+				}
+				if phantoms > 0 && n+phantoms > r.adv {
+					cls = strings.TrimPrefix(r.anySuffix(), "|")
 				}
 				r.fail("C16|connIDManager|within-advertised-limit-rejected|"+cls,
 					"CONNECTION_ID_LIMIT_ERROR for %s although only %d connection IDs are unretired and the endpoint advertised active_connection_id_limit=%d (spec-driven: %v)", f, n, r.adv, r.specDriven)
@@ -1564,4 +1569,3 @@ func TestVerifC16Generator(t *testing.T) {
 	}
 }
 
-var _ = strings.Join
